@@ -1261,6 +1261,12 @@ class TLSConnection(TLSRecordLayer):
                         AlertDescription.decode_error,
                         "Empty pre_shared_key extension in Server Hello"):
                     yield result
+            cl_psk = clientHello.getExtension(ExtensionType.pre_shared_key)
+            if not cl_psk or sr_psk.selected >= len(cl_psk.identities):
+                for result in self._sendError(
+                        AlertDescription.illegal_parameter,
+                        "Server selected PSK identity we did not offer"):
+                    yield result
         key_share = serverHello.getExtension(ExtensionType.key_share)
         if key_share and real_version > (3, 3) and \
                 key_share.server_share is None:
